@@ -437,7 +437,7 @@ harness! {
 // size 0 / N = 0: std panics, so must konst
 
 harness! {
-    /// kind=bounded tier=quick bound="slice len<=6; size 0 (N = 0 for array_chunks): every constructor must panic" expect_fail="in konst::slice::"
+    /// kind=bounded tier=quick bound="slice len<=6; size 0 (N = 0 for array_chunks): every constructor must panic" expect_fail="in konst::slice::(windows|r?chunks(_exact)?|as_chunks)::<u8"
     #[kani::unwind(9)]
     fn c08_zero_size_panics(s) {
         let arr: [u8; 6] = s.bytes();
